@@ -75,22 +75,26 @@ def oracle2(case, impl):
         for k, nme in ((0, "type"), (1, "flags"), (3, "virtual address"), (4, "physical address"), (6, "memory size")):
             if g[k] != ng[k]:
                 fails.append("segment %d: %s changed from %d to %d" % (j, nme, g[k], ng[k]))
-    # memory image: section bytes of loadable segments at the same virtual address
+    # memory image: section bytes of loadable segments at the same virtual address.  Which section bytes a segment's
+    # image holds is decided here from the ORIGINAL headers alone (allocated, with file contents, address range inside
+    # the segment's file-backed range, same distance from the segment start in the file as in memory) - not from the
+    # member lists the library reports
     newfile = case.meta["saved"]
     for j, g in o_segs.items():
         if g[0] != 1 or j not in n_segs:
             continue
         ng = n_segs[j]
-        for m in g[9:9 + g[8]]:
-            if m in touched or m not in o_secs:
+        for m, (f, _) in o_secs.items():
+            if m in touched:
                 continue
-            f, _ = o_secs[m]
             d = o_data.get(m)
-            if not d or f[0] in (0, 8) or not (f[1] & 2):
+            if not d or f[0] in (0, 8) or not (f[1] & 2) or (f[1] & 0x400):
                 continue
-            addr = f[2]
-            off = ng[2] + (addr - ng[3])
-            if not (ng[3] <= addr and addr + len(d) <= ng[3] + ng[5]) or newfile[off:off + len(d)] != d:
+            addr, off = f[2], f[3]
+            if not (g[3] <= addr and addr + len(d) <= g[3] + g[5] and off - g[2] == addr - g[3]):
+                continue
+            noff = ng[2] + (addr - ng[3])
+            if not (ng[3] <= addr and addr + len(d) <= ng[3] + ng[5]) or newfile[noff:noff + len(d)] != d:
                 fails.append("memory: bytes of section %d are no longer found at virtual address %d of segment %d" % (m, addr, j))
                 break
     return fails
@@ -111,7 +115,8 @@ def sources(rng, tier):
             continue      # archived fuzzer inputs and the compressed RPX file are not well-formed images in the property's sense
         out.append((os.path.basename(f), im, "@" + f))
     for i in range(12 if tier == "quick" else 120):
-        im, b = elfimg.rich_image(rng, *CFGS[i % 4])
+        # every third image lists its loadable groups in the section header table in another order than their addresses
+        im, b = elfimg.rich_image(rng, *CFGS[i % 4], table_shuffle=(i % 3 == 2))
         out.append(("rich%d" % i, im, hx(b)))
     return out
 
